@@ -362,14 +362,19 @@ func runHash(i disco.Info, h stdcrypto.Hash) (res result) {
 	return result{pre: rh.rec, out: out}
 }
 
-func runAppend(i disco.Info, h stdcrypto.Hash, dst []byte) (out []byte, pre []byte, panicked string) {
+func runAppend(i disco.Info, h stdcrypto.Hash, dst []byte, spare int) (out []byte, pre []byte, panicked string) {
 	defer func() {
 		if p := recover(); p != nil {
 			out, pre, panicked = nil, nil, fmt.Sprint(p)
 		}
 	}()
 	rh := &recHash{Hash: h.New()}
-	d := append(make([]byte, 0, len(dst)+rnd8(len(dst))), dst...)
+	// the destination has `spare` bytes of capacity beyond its length, filled with a
+	// recognisable pattern: a reused buffer (buf[:0]) is the typical caller
+	d := append(make([]byte, 0, len(dst)+spare), dst...)
+	for k := range d[len(d):cap(d)] {
+		d[len(d):cap(d)][k] = 0xA5
+	}
 	out = i.AppendHash(d, rh)
 	return out, rh.rec, ""
 }
@@ -622,8 +627,12 @@ func (c *ctx) entryPoints(g gInfo, dst []byte) {
 		sum := h.New()
 		sum.Write(res.pre)
 		b64 := base64.StdEncoding.EncodeToString(sum.Sum(nil))
-		for _, d := range [][]byte{nil, dst} {
-			out, pre, p := runAppend(g.build(), h, d)
+		for _, ds := range []struct {
+			d     []byte
+			spare int
+		}{{nil, 0}, {dst, rnd8(len(dst))}, {nil, 64}, {nil, 200}, {dst, 64}, {dst, 200}, {[]byte{}, 29}} {
+			d := ds.d
+			out, pre, p := runAppend(g.build(), h, d, ds.spare)
 			line := fmt.Sprintf("append %s %s", common.Hex(d), common.HexS(b64))
 			obs := common.Hex(out)
 			if p != "" {
@@ -631,7 +640,7 @@ func (c *ctx) entryPoints(g gInfo, dst []byte) {
 			}
 			r.Line(line, obs)
 			r.Case(line+verLine, true, "append")
-			lines := []string{verLine, r.Prop + " " + line, fmt.Sprintf("#hash=%v", h)}
+			lines := []string{verLine, r.Prop + " " + line, fmt.Sprintf("#hash=%v spare-capacity=%d", h, ds.spare)}
 			switch {
 			case p != "":
 				r.Fail("total", "append", lines, "AppendHash panicked: "+p)
